@@ -211,6 +211,14 @@ func init() {
 		orch(pkgRC, "VerifFullTimeoutThenOK", 2, "FULL stack: an invocation following a timed-out one (deadline, body, outcome)", "timeout", "respond", "scenario-done"),
 	}
 	c01 = append(c01, frontEnd()...)
+	{
+		// the size boundary itself (a response of exactly the limit is returned unchanged) needs the
+		// cvc5 portfolio: it is the first harness of the list
+		b := orch(pkgRC, "VerifC14Oversize", 0, "FULL stack with symbolic multi-megabyte lengths: a response of at most the limit (the limit included) is delivered intact, a longer one is replaced by the size error, the environment keeps serving", "scenario-done")
+		b.solver, b.altSolver = "cvc5", true
+		c01 = append([]*harnessSpec{b}, c01...)
+		c01 = append(c01, orch(pkgRC, "VerifC05SlowStateGetter", 1, "exactly one outcome, and its own: a late completion report of the previous (timed-out) invocation is not taken for the outcome of the next one", "late-done", "done"))
+	}
 	c01t := append(withD(c01, 2, 3000000), orch(pkgRC, "VerifFullAny2", 2, "FULL stack: any of 7 runtime behaviours for each of 2 invocations", "scenario-done"), twoCallers)
 	checkRegistry = append(checkRegistry, &checkSpec{id: "C01", level: "other", quick: c01, thorough: c01t, assume: orchAssume, outside: append(orchOutside, "InitHandler / main.go of cmd/aws-lambda-rie (environment forwarding, HTTP server)")})
 
@@ -364,6 +372,7 @@ func init() {
 		sup("VerifC19Status1", 2, "one process, SYMBOLIC natural exit code (0..255) / terminating signal (1..31) / TERM-handler exit code, 3 reactions to TERM, one request out of {Kill, Kill past deadline, Kill unknown, Terminate, Terminate unknown}: the event carries the true status (decoded by the real syscall.WaitStatus code)", "event-exit-status", "event-signal", "terminated", "done"),
 		sup("VerifC19One2", 2, "one process: 3 TERM reactions x SIGKILL-resistant or not x forks a child into its group or not x {runs on, exits 0/1/200, dies of a signal}, 2 requests, natural exit racing with the requests", "kill-ok", "kill-timeout", "kill-already-exited", "kill-past-deadline", "kill-unknown", "kill-group", "terminate", "terminate-does-not-wait", "done"),
 		sup("VerifC19Two2", 1, "two processes at once (4 profiles each), 2 requests on either", "kill-ok", "kill-group", "terminate", "done"),
+		sup("VerifC19EventsAfterContextDone", 2, "processes started with request contexts that are cancelled at once, exiting while nobody reads the events channel: exactly one event per process", "done"),
 		sup("VerifC19Concurrent", 2, "concurrent requests: while a Kill of a SIGKILL-resistant process is blocked until its deadline, Terminate / Kill of another process complete at once", "terminate-while-kill-blocked", "kill-while-kill-blocked", "done"),
 	}
 	c19t := []*harnessSpec{
